@@ -801,13 +801,33 @@ def simulate(c, in_pos, st_pos, pats, state, npat, out_pos):
     return outs, nxt
 
 
-def unobservable(net, inst, pats, state):
-    """True if the flip-flop influences no output and no other flip-flop (resolve_tlib_cells prunes such cones)"""
+def observable_flops(net, pats, state):
+    """The flip-flops that influence an output directly or through other flip-flops (least fixed point over the next-state
+    dependencies, decided by flipping one state bit at a time under the given patterns); resolve_tlib_cells prunes every cone
+    that ends in unconnected outputs only, flip-flops included, and with it everything that feeds only such cones."""
     a_out, a_nxt = evaluate(net, pats, state)
-    st2 = dict(state)
-    st2[inst] = 1 - state[inst]
-    b_out, b_nxt = evaluate(net, pats, st2)
-    return all(np.array_equal(a_out[k], b_out[k]) for k in a_out) and all(np.array_equal(a_nxt[k], b_nxt[k]) for k in a_nxt if k != inst)
+    infl_out, infl_nxt = set(), {}
+    for inst in state:
+        st2 = dict(state)
+        st2[inst] = 1 - state[inst]
+        b_out, b_nxt = evaluate(net, pats, st2)
+        if not all(np.array_equal(a_out[k], b_out[k]) for k in a_out):
+            infl_out.add(inst)
+        infl_nxt[inst] = {k for k in a_nxt if k != inst and not np.array_equal(a_nxt[k], b_nxt[k])}
+    obs = set(infl_out)
+    changed = True
+    while changed:
+        changed = False
+        for inst in state:
+            if inst not in obs and infl_nxt[inst] & obs:
+                obs.add(inst)
+                changed = True
+    return obs
+
+
+def unobservable(net, inst, pats, state):
+    """True if the flip-flop influences no output, neither directly nor through other flip-flops"""
+    return inst not in observable_flops(net, pats, state)
 
 
 def state_positions(c, names, net=None, pats=None, state=None):
